@@ -52,22 +52,22 @@ Example C07_f10_regression :
     Some [("ser_S", PCustom (JStr "a")); ("ser_S", PCustom (JInt 2))].
 Proof. vm_compute. repeat split. Qed.
 
-(* ---- custom operation builder arguments (custom_arguments.py, finding F15): serialize is applied to the whole
-        argument; right when the type has no list wrapper, refuted for lists ---- *)
-Definition C07_custom_args_full : Prop := forall S t v log,
-  occ_ser S t false v = Some log -> custom_arg_log S t v = log.
+(* ---- custom operation builder arguments (custom_arguments.py; full since /repo 3032a3a fixed finding F15):
+        evaluating the generated expression calls serialize once per non-None occurrence, in order, for every
+        wrapper nesting; None ("argument not given") is never serialised ---- *)
+Theorem C07_custom_args : forall S ser t v log,
+  (forall f, var_ser S t = Some f -> String.eqb f "x" = false /\ is_item_name f = false) ->
+  occ_ser S t false v = Some log -> custom_arg_log ser S t v = Some log.
+Proof. exact custom_args. Qed.
+Print Assumptions C07_custom_args.
 
-Theorem C07_custom_args_partial : forall S t v log,
-  has_list t = false -> occ_ser S t false v = Some log -> custom_arg_log S t v = log.
-Proof. exact custom_args_no_list. Qed.
-Print Assumptions C07_custom_args_partial.
-
-Theorem C07_custom_args_refuted_list : ~ C07_custom_args_full.
-Proof.
-  intro H. specialize (H SS (TList (TNamed "S")) (PList [PCustom (JStr "a"); PNone]) _ eq_refl).
-  vm_compute in H. discriminate.
-Qed.
-Print Assumptions C07_custom_args_refuted_list.
+(* the former refutation witness (F15), kept as regression case *)
+Example C07_f15_regression :
+  custom_arg_log ser_inst SS (TList (TNamed "S")) (PList [PCustom (JStr "a"); PNone]) = Some [("ser_S", PCustom (JStr "a"))] /\
+  custom_arg_log ser_inst SS (TNonNull (TList (TNonNull (TNamed "S")))) PNone = Some [] /\
+  dictval_str (gen_cu (TList (TNonNull (TNamed "S"))) "codes" "ser_S" true 0) =
+    "[ser_S(_item0) for _item0 in codes] if codes is not None else None".
+Proof. vm_compute. repeat split. Qed.
 
 (* ---- imports ---- *)
 Theorem C07_imports_complete : forall c nm m o,
